@@ -72,8 +72,8 @@ def jobs_for(ctx):
     """(nprocs, init, programs, crash agent, limit).  Quick: every job is exhaustive (limit not hit)."""
     J = []
     big = 30000
-    quick2 = [("a", "kr/ci"), ("e", "kr/ci"), ("g", "kr/ci"), ("a", "kr/ck"), ("a", "ki/ki"), ("a", "kr/ri"), ("e", "kr/ri"),
-              ("a", "ck/ci"), ("p107", "ck/ci"), ("e", "ck/ci"), ("a", "kc/ki"), ("a", "kr/gc"), ("g", "kr/gc"),
+    quick2 = [("a", "kr/ci"), ("e", "kr/ci"), ("a", "kr/ck"), ("a", "ki/ki"), ("a", "kr/ri"), ("e", "kr/ri"),
+              ("a", "ck/ci"), ("e", "ck/ci"), ("a", "kr/gc"), 
               ("a", "kk/ci"), ("a", "rk/ic"), ("p107", "rk/ic"), ("e", "rk/ic"), ("a", "kg/ck"), ("a", "ki/cr"),
               ("p107", "k/ci"), ("p107", "k/k"), ("p107", "kr/i"), ("p107", "kr/c"), ("p107", "ck/i"), ("p107", "ck/c"),
               ("a", "kr/k"), ("e", "kr/k"), ("a", "ki/k"), ("g", "ki/k")]
